@@ -24,6 +24,7 @@ Definition load (d : dumpT) : state :=
     (fo (fun e => map unz (nth 3 e [])) []) (fo (fun e => map unz (nth 4 e [])) []) (fo (fun e => map unz (nth 5 e [])) [])
     (fw (fun e => unz (fld e 0 0)) 0) (fw (fun e => fld e 0 1) 0%Z) (fw (fun e => fld e 0 2) 0%Z)
     (fw (fun e => unzo (fld e 0 3)) None) (fw (fun e => map unz (nth 1 e [])) [])
+    (fw (fun e => Z.eqb (fld e 0 4) 1) false) (fw (fun e => map unz (nth 2 e [])) [])
     (fp (fun e => unk (fld e 0 0)) PIn) (fp (fun e => unz (fld e 0 1)) 0) (fp (fun e => fld e 0 2) 0%Z) (fp (fun e => unz (fld e 0 3)) 0).
 
 (* bit i of the result is set when clause i FAILS on the recorded real step  s --op--> s'  (r = 1: the call raised) *)
@@ -34,7 +35,8 @@ Definition spec_bits (s : state) (o : op) (r : Z) (s' : state) : Z :=
    + b 6 (match conflict_of s o with Some _ => Z.eqb r 1 | None => true end)
    + b 7 (sinks_exact_b s')
    + b 8 (negb (Z.eqb r 1) || dump_eqb (dump s) (dump s'))     (* a raising call leaves the object graph untouched *)
-   + b 9 (all_registered_b s'))%Z.
+   + b 9 (all_registered_b s')
+   + b 10 (sources_exact_b s'))%Z.
 
 (* failing steps of a recorded real run: (index, failing clauses, was the subject wire registered before the call) *)
 Fixpoint spec_scan (s : state) (ops : list op) (rec : list (Z * dumpT)) (i : Z) : list (Z * Z * bool) :=
@@ -55,8 +57,12 @@ Definition stray_b (s : state) (h : nat) : bool :=
           (seq 0 (nobj s)).
 (* single-fault variant evaluated on the Coq side: the source of wire w removed *)
 Definition clear_source (s : state) (w : nat) : state := set_wsource s (upd (wsource s) w None).
-Definition integrity3 (s : state) (h : nat) : Z * bool * bool :=
-  ((match checkIntegrity s h with IOk => 0 | IRaise => 1 | IFuel => 2 end)%Z, undriven_port_b s h, stray_b s h).
+(* some visited port is attached to a BidirWire (there getSource fails whatever drives the wire: finding F3) *)
+Definition bidir_port_b (s : state) (h : nat) : bool :=
+  existsb (fun o => anc_b (nobj s) s h o && existsb (fun q => wbidir s (pwire s q)) (oin s o ++ oout s o)) (seq 0 (nobj s)).
+Definition integrity3 (s : state) (h : nat) : Z * bool * Z :=
+  ((match checkIntegrity s h with IOk => 0 | IRaise => 1 | IFuel => 2 end)%Z, undriven_port_b s h,
+   ((if stray_b s h then 1 else 0) + (if bidir_port_b s h then 2 else 0))%Z).
 
 (* ---------------------------------------------------------------- fast path of the per-call comparison
    The real side sends, per call, its raise flag and a fingerprint of its canonical dump; as long as both agree with
@@ -81,14 +87,14 @@ Fixpoint scan_fp (s : state) (ops : list op) (rec : list (Z * Z)) (i : Z)
   | _, _ => (None, [], s)
   end.
 Definition scan_fast (ops : list op) (rec : list (Z * Z)) (hs : list nat)
-  : option (Z * Z * dumpT) * list (Z * Z * bool) * list (Z * bool * bool) :=
+  : option (Z * Z * dumpT) * list (Z * Z * bool) * list (Z * bool * Z) :=
   let '(d, l, sf) := scan_fp init ops rec 0%Z in
   (d, l, match d with None => map (integrity3 sf) hs | Some _ => [] end).
 
 (* the same scan after a prefix of calls that is executed on the model without comparison (exhaustive sweeps share
    their set-up prefix; the prefix itself is compared once as an ordinary sequence) *)
 Definition scan_fast_from (pre ops : list op) (rec : list (Z * Z)) (hs : list nat)
-  : option (Z * Z * dumpT) * list (Z * Z * bool) * list (Z * bool * bool) :=
+  : option (Z * Z * dumpT) * list (Z * Z * bool) * list (Z * bool * Z) :=
   let '(d, l, sf) := scan_fp (run pre) ops rec 0%Z in
   (d, l, match d with None => map (integrity3 sf) hs | Some _ => [] end).
 
@@ -96,4 +102,4 @@ Definition scan_fast_from (pre ops : list op) (rec : list (Z * Z)) (hs : list na
    every wire is exactly the out/inout port of a block WITH BEHAVIOUR attached to it), unique children, unique wires *)
 Definition wf_bits (s : state) : Z :=
   let b (i : Z) (ok : bool) := if ok then 0%Z else (2 ^ i)%Z in
-  (b 0 (single_driver_b s) + b 1 (unique_children_b s) + b 2 (unique_wires_b s))%Z.
+  (b 0 (single_driver_b s) + b 1 (unique_children_b s) + b 2 (unique_wires_b s) + b 10 (sources_exact_b s))%Z.
